@@ -38,10 +38,15 @@ use crate::{
 };
 use serde::{Deserialize, Serialize};
 use std::hash::Hash;
+#[cfg(not(flea1lt_sentinel_rust_verif))]
 use std::sync::{
     atomic::{AtomicU64, Ordering},
     Arc, Mutex,
 };
+#[cfg(flea1lt_sentinel_rust_verif)]
+use std::sync::{atomic::Ordering, Arc};
+#[cfg(flea1lt_sentinel_rust_verif)]
+use crate::verif::sync::{atomic::AtomicU64, Mutex};
 
 cfg_k8s! {
     use schemars::JsonSchema;
